@@ -14,13 +14,15 @@ abbrev Err := Nat
 structure World where
   parse : Doc → Except Err Unit          -- does the document parse (the AST is identified with the document)
   attrs : Doc → G
-  html : Doc → G → G → Html              -- document, store at build time, store at render time
+  html : Doc → G → G → List G → Html     -- document, store at build time, store at render time, and the stores that were
+                                         --   in force at the earlier renderings of THIS tree (components memoise resolved
+                                         --   values and accumulate state from one Render to the next)
   validation : Doc → Option Err          -- invalid-attribute error reported while building the tree
   reorder : Html → Html                  -- normalizeGroupColumnClassOrder
 
 structure St where
   g : Option G                           -- none = nothing compiled yet in this process
-  trees : List (Doc × G)                 -- component trees created by NewFromAST: (document, store at build time)
+  trees : List (Doc × G × List G)        -- component trees created by NewFromAST: (document, store at build, stores at earlier renders)
 
 inductive Call
   | render (d : Doc)                     -- Render
@@ -47,23 +49,24 @@ def step (w : World) (s : St) : Call → St × Res
   | .render d =>
     match w.parse d with
     | .error e => (s, .fail e)
-    | .ok _ => ({ s with g := some (w.attrs d) }, finish w d (w.reorder (w.html d (w.attrs d) (w.attrs d))))
+    | .ok _ => ({ s with g := some (w.attrs d) }, finish w d (w.reorder (w.html d (w.attrs d) (w.attrs d) [])))
   | .renderWithAST d =>
     match w.parse d with
     | .error e => (s, .fail e)
-    | .ok _ => ({ s with g := some (w.attrs d) }, finish w d (w.html d (w.attrs d) (w.attrs d)))
+    | .ok _ => ({ s with g := some (w.attrs d) }, finish w d (w.html d (w.attrs d) (w.attrs d) []))
   | .renderFromAST d =>
     match w.parse d with
     | .error e => (s, .fail e)
-    | .ok _ => ({ s with g := some (w.attrs d) }, finish w d (w.html d (w.attrs d) (w.attrs d)))
+    | .ok _ => ({ s with g := some (w.attrs d) }, finish w d (w.html d (w.attrs d) (w.attrs d) []))
   | .newFromAST d =>
     match w.parse d with
     | .error e => (s, .fail e)
-    | .ok _ => ({ g := some (w.attrs d), trees := s.trees ++ [(d, w.attrs d)] }, .ok 0)
+    | .ok _ => ({ g := some (w.attrs d), trees := s.trees ++ [(d, w.attrs d, [])] }, .ok 0)
   | .renderTree k =>
     match s.trees[k]? with
     | none => (s, .noSuchTree)
-    | some (d, gb) => (s, .ok (w.html d gb (s.g.getD 0)))     -- reads whatever the store holds NOW
+    | some (d, gb, seen) =>                                    -- reads whatever the store holds NOW
+      ({ s with trees := s.trees.set k (d, gb, seen ++ [s.g.getD 0]) }, .ok (w.html d gb (s.g.getD 0) seen))
 
 def run (w : World) (s : St) : List Call → St × List Res
   | [] => (s, [])
@@ -98,18 +101,19 @@ theorem paths_agree (w : World) (s s' : St) (d : Doc) (hv : w.validation d = non
 /-- the step-by-step path, taken without anything in between, yields the same HTML as RenderFromAST -/
 theorem new_then_render (w : World) (s : St) (d : Doc) (hp : w.parse d = .ok ()) :
     let s1 := (step w s (.newFromAST d)).1
-    (step w s1 (.renderTree s.trees.length)).2 = .ok (w.html d (w.attrs d) (w.attrs d)) := by
+    (step w s1 (.renderTree s.trees.length)).2 = .ok (w.html d (w.attrs d) (w.attrs d) []) := by
   simp [step, hp]
 
 /-- a tree rendered later depends on the store left by whatever was compiled in between … -/
-theorem tree_reads_current_store (w : World) (s : St) (k : Nat) (d : Doc) (gb : G) (hk : s.trees[k]? = some (d, gb)) :
-    (step w s (.renderTree k)).2 = .ok (w.html d gb (s.g.getD 0)) := by
+theorem tree_reads_current_store (w : World) (s : St) (k : Nat) (d : Doc) (gb : G) (seen : List G) (hk : s.trees[k]? = some (d, gb, seen)) :
+    (step w s (.renderTree k)).2 = .ok (w.html d gb (s.g.getD 0) seen) := by
   simp [step, hk]
 
 /-- … so it equals the fresh result whenever the store still holds this document's own attributes -/
-theorem tree_ok_if_store_own (w : World) (s : St) (k : Nat) (d : Doc) (hk : s.trees[k]? = some (d, w.attrs d))
-    (hg : s.g = some (w.attrs d)) : (step w s (.renderTree k)).2 = .ok (w.html d (w.attrs d) (w.attrs d)) := by
-  simp [step, hk, hg]
+theorem tree_ok_if_store_own (w : World) (s : St) (k : Nat) (d : Doc) (seen : List G) (hk : s.trees[k]? = some (d, w.attrs d, seen))
+    (hg : s.g = some (w.attrs d)) (hstateless : w.html d (w.attrs d) (w.attrs d) seen = w.html d (w.attrs d) (w.attrs d) []) :
+    (step w s (.renderTree k)).2 = .ok (w.html d (w.attrs d) (w.attrs d) []) := by
+  simp [step, hk, hg, hstateless]
 
 /-- **C06(b) trichotomy**: every call returns exactly one of the three result shapes, and a validation error never
     changes the HTML -/
